@@ -57,7 +57,8 @@ func runRoundsFrom(hp *hPlugin, start any, seq uint64, rounds []any) (outs []any
 			}
 			rs, err := hp.p.Reports(context.Background(), seq, ob)
 			if err != nil {
-				outs = append(outs, resErr("reports", err))
+				cur = o
+				outs = append(outs, J{"outcome": outcomeJ(o), "reports": []any{}, "reportsFailed": true, "_reports_err": err.Error(), "_bytes": hexs(ob) + "|"})
 				return
 			}
 			rj, err := reportsJ(rs)
